@@ -108,6 +108,14 @@ Example C07_ex :
   = Ok [(VNum KInt (Fin 1), [VStr [97]; VStr [99]]); (VStr [120], [VStr [98]])].
 Proof. vm_compute. reflexivity. Qed.
 
+(* non-vacuity: hashantijoin on the operator model (1 == 1.0 matches; None and 'x' have no partner) *)
+Example C07_ex_hashantijoin :
+  hashantijoin_model (VStr [107]) (VStr [107])
+    [[VStr [107]; VStr [118]]; [VNum KInt (Fin 1); VStr [97]]; [VNone; VStr [98]]; [VStr [120]; VStr [99]]; [VNum KInt (Fin 2); VStr [100]]]
+    [[VStr [107]]; [VNum KFloat (Fin 1)]; [VNum KInt (Fin 2)]]
+  = ([[VStr [107]; VStr [118]]; [VNone; VStr [98]]; [VStr [120]; VStr [99]]], None).
+Proof. vm_compute. reflexivity. Qed.
+
 Print Assumptions C07_lookup_groups_in_table_order.
 Print Assumptions C07_lookupone_keeps_first.
 Print Assumptions C07_strict_raises_iff_duplicate.
